@@ -15,6 +15,7 @@ import (
 	"errors"
 	"fmt"
 	"os"
+	"path/filepath"
 	"time"
 
 	"hop.computer/hop/certs"
@@ -109,12 +110,29 @@ func forge(typ certs.CertificateType, win [2]int, names []certs.Name, pub keys.D
 	return out
 }
 
+// The model's two labels "a" and "b" are DIFFERENT names.  They are made concrete in several flavours of
+// "different": plainly different, differing in letter case only, a Unicode look-alike (Kelvin sign), byte strings
+// that are not UTF-8 and differ in one byte, and b = the empty label.
+var flavours = [][2]string{{"a", "b"}, {"Admin.example", "admin.example"}, {"k.example", "\u212a.example"}, {"\xff\x0a\x00\x41", "\xfe\x0a\x00\x41"}, {"a", ""}}
+
+var flavour int
+
+func lab(which string) string {
+	if which == "a" {
+		return flavours[flavour][0]
+	}
+	return flavours[flavour][1]
+}
+
+func rawName(l string) certs.Name { return certs.Name{Type: certs.TypeRaw, Label: []byte(l)} }
+func dnsName(l string) certs.Name { return certs.Name{Type: certs.TypeDNSName, Label: []byte(l)} }
+
 func nameSet(s string) []certs.Name {
 	switch s {
 	case "A":
-		return []certs.Name{certs.DNSName("a")}
+		return []certs.Name{dnsName(lab("a"))}
 	case "AB":
-		return []certs.Name{certs.DNSName("b"), certs.RawStringName("a")}
+		return []certs.Name{dnsName(lab("b")), rawName(lab("a"))}
 	}
 	return nil
 }
@@ -122,13 +140,13 @@ func nameSet(s string) []certs.Name {
 func reqName(s string) certs.Name {
 	switch s {
 	case "dns:a":
-		return certs.DNSName("a")
+		return dnsName(lab("a"))
 	case "dns:b":
-		return certs.DNSName("b")
+		return dnsName(lab("b"))
 	case "raw:a":
-		return certs.RawStringName("a")
+		return rawName(lab("a"))
 	case "raw:b":
-		return certs.RawStringName("b")
+		return rawName(lab("b"))
 	}
 	return certs.Name{}
 }
@@ -139,8 +157,12 @@ type world struct {
 	opts  certs.VerifyOptions
 }
 
+var viaPEM bool
+var pemStores int
+
 func build(c cfg, variant int) *world {
 	w := &world{slot: map[string]*certs.Certificate{}}
+	var inStore []*certs.Certificate
 	var zero certs.SHA3Fingerprint
 	fp := func(s string) certs.SHA3Fingerprint {
 		if s == "zero" {
@@ -162,6 +184,30 @@ func build(c cfg, variant int) *world {
 	}{{c.SR1, "R1"}, {c.SR2, "R2"}, {c.SI1, "I1"}, {c.SI2, "I2"}} {
 		if s.in {
 			w.store.AddCertificate(w.slot[s.n])
+			inStore = append(inStore, w.slot[s.n])
+		}
+	}
+	if viaPEM && len(inStore) > 0 {
+		// the other way a trust store is built: a PEM bundle on disk, intermediates first, loaded by the repository
+		var bundle []byte
+		for k := len(inStore) - 1; k >= 0; k-- {
+			b, err := certs.EncodeCertificateToPEM(inStore[k])
+			if err != nil {
+				bundle = nil
+				break
+			}
+			bundle = append(bundle, b...)
+			bundle = append(bundle, '\n')
+		}
+		if bundle != nil {
+			path := filepath.Join(os.TempDir(), fmt.Sprintf("vf-c04-bundle-%d.pem", os.Getpid()))
+			if os.WriteFile(path, bundle, 0600) == nil {
+				if st, err := certs.LoadRootStoreFromPEMFile(path); err == nil {
+					w.store = *st
+					pemStores++
+				}
+				os.Remove(path)
+			}
 		}
 	}
 	if c.Pres != "none" {
@@ -224,8 +270,11 @@ func doCfgs(in, out string) {
 		}
 		got := make([]string, 3)
 		for v := 0; v < 3; v++ {
+			flavour = (i + v) % len(flavours)
+			viaPEM = (i+v)%2 == 1
 			got[v] = verify(build(l.C, v))
 		}
+		flavour, viaPEM = 0, false
 		w.Ev("cfg", "i", i, "got", got)
 		i++
 	}
